@@ -28,7 +28,9 @@
 (***************************************************************************)
 EXTENDS AdapterTable, Json
 
-CONSTANTS Tri      \* the method names that may also be "attr": present as a data attribute, not callable
+CONSTANTS FalsyAll, \* TRUE: falsy elements with every capability record; FALSE (quick tier): only those without
+                    \* request and _can_break_flow
+          Tri      \* the method names that may also be "attr": present as a data attribute, not callable
 
 StatesOf(x) == IF x \in Tri THEN {"no", "meth", "attr"} ELSE {"no", "meth"}
 Caps == [run : StatesOf("run"), fill : StatesOf("fill"), compute : StatesOf("compute"), request : StatesOf("request"),
@@ -42,6 +44,7 @@ vars == <<adapter, caps, arg, phase, res, log, sink, ret, uses>>
 (* Machine.                                                                *)
 (***************************************************************************)
 Init == /\ adapter \in Adapters /\ caps \in Caps /\ arg \in ArgsOf(adapter)
+        /\ (FalsyAll \/ caps.truth \/ (~caps.cbf /\ caps.request = "no"))
         /\ phase = "new" /\ res = Reject /\ log = <<>> /\ sink = <<>> /\ ret = <<>> /\ uses = 0
 Construct == /\ phase = "new" /\ res' = Decide(adapter, caps, arg)
              /\ phase' = (IF res'.ok THEN "built" ELSE "rejected")
